@@ -39,9 +39,9 @@ def server_caps(rng):
     return caps
 
 
-def hello_text(rng, caps, sid=None):
+def hello_text(rng, caps, sid=None, clean=False):
     sid = sid if sid is not None else str(rng.randint(1, 9999))
-    r = rng.random()
+    r = 0.5 if clean else rng.random()
     body = ''.join('<capability>%s</capability>' % c.replace('&', '&amp;') for c in caps)
     if r < 0.08:
         body += '<capability/>'                 # empty capability: HelloHandler.parse raises -> connect fails
@@ -202,7 +202,7 @@ def explore(rng, transport, profile, flavor, runner_cls, max_cmds=70):
             continue
         # server actions
         if not hello_sent and rng.random() < 0.5 and not short:
-            srv.push(hello_text(rng, scaps), chunk=False)
+            srv.push(hello_text(rng, scaps, clean=(flavor in ('normal', 'late-ready', 'close'))), chunk=False)
             hello_sent = True
         elif hello_sent and finished and R.conn_result == 'ok' and rng.random() < 0.35:
             pend = srv.pending_ids(R.ctl.wire)
@@ -214,12 +214,16 @@ def explore(rng, transport, profile, flavor, runner_cls, max_cmds=70):
             elif r < 0.85:
                 srv.notifs += 1
                 srv.push(notification_text(rng, srv.notifs))
-            elif flavor in ('odd', 'fault') or r > 0.97:
+            elif flavor in ('odd', 'fault'):
                 srv.push(rng.choice(ODD))
         # client actions
         if finished and R.conn_result == 'ok' and not closed and rng.random() < 0.25 and n_req < 6:
             n_req += 1
-            do(['req'])
+            if flavor == 'fault' and rng.random() < 0.25 and not info.get('trap'):
+                info['trap'] = True
+                do(['trap'])
+            else:
+                do(['req'])
             continue
         if finished and rng.random() < 0.1:
             do(['take'])
@@ -236,7 +240,9 @@ def explore(rng, transport, profile, flavor, runner_cls, max_cmds=70):
             if fault_budget and rng.random() < 0.08:
                 fault_budget -= 1
                 info['faults'].append('write')
-                do(['w', rng.choice([0, -1])])
+                do(['w', rng.choice([0, -1, 'err'])])
+            elif closed:
+                do(['w', 'err'])
             else:
                 n = len(data)
                 do(['w', n if rng.random() < 0.5 else rng.randint(1, n)])
@@ -267,8 +273,12 @@ def explore(rng, transport, profile, flavor, runner_cls, max_cmds=70):
             do(['w', None])
         else:
             break
+    if finished and R.conn_result == 'ok':
+        for _ in range(srv.notifs + 1):
+            do(['take'])
     info['closed'] = closed
     info['finished'] = finished
+    info['server_out_left'] = len(srv.out)
     info['want11'] = want11
     info['server_caps'] = scaps
     info['n_req'] = n_req
